@@ -198,6 +198,9 @@ func c17Gen(t *rapid.T) c17Case {
 		return c17Case{Kind: "requests", C11: &c}
 	case 7, 8:
 		c := c04Gen(t)
+		if c.Gap != nil && len(c.Mix) == 0 && rapid.Bool().Draw(t, "lag") {
+			c.LagMs = rapid.SampledFrom([]int{60, 120, 260}).Draw(t, "lagms") // block assembly behind the reader when the data drop comes
+		}
 		return c17Case{Kind: "lancero", C04: &c}
 	default:
 		c := c16Gen(t)
